@@ -431,8 +431,8 @@ impl Net {
             if c.client.is_connected() && !c.server_ever_held {
                 return Err(Fail::new("client_connected_before_handshake", format!("the RenetClient of client object {ci} reports connected although the server never completed a handshake for it")));
             }
-            if c.expect_dgram_up_by.is_some() && c.transport.disconnect_reason().is_some() {
-                // the netcode client already ended by other means (server's disconnect, timeout) or has just sent its packet
+            if c.expect_dgram_up_by.is_some() && matches!(c.transport.disconnect_reason(), Some(r) if r != renet_netcode::NetcodeDisconnectReason::DisconnectedByClient) {
+                // the netcode client already ended by other means (server's disconnect, timeout); its own decision must come with a datagram
                 c.expect_dgram_up_by = None;
             }
             if c.expect_dgram_down_by.is_some() && !held {
@@ -593,7 +593,8 @@ impl Property for C20 {
                     let via_transport = ctx.src.chance(100);
                     let tick = net.tick;
                     let c = &mut net.clients[ci];
-                    let live = c.client.is_connected() && c.transport.disconnect_reason().is_none();
+                    // in every state short of disconnected the transport announces the end of the session with a disconnect datagram
+                    let live = !c.client.is_disconnected() && c.transport.disconnect_reason().is_none();
                     if via_transport {
                         c.transport.disconnect();
                         ctx.label("transport_disconnect");
